@@ -179,6 +179,7 @@ type Obligation struct {
 	Expect  string // "unsat" (default) or "sat" for covers
 	Result  *SolverResult
 	Trivial bool
+	Quick   bool // recorded known finding: expected to stay undischarged, solved with a short time-out
 }
 
 type unsupportedErr struct{ msg string }
